@@ -100,6 +100,7 @@ fn cmd_drive(m: &BTreeMap<String, String>) {
         watchdog_s: get(m, "watchdog", 10),
         sweep: get(m, "sweep", 16),
         marathon: get(m, "marathon", 0),
+        flood: get(m, "flood", 0),
         dump_sessions: get(m, "dump-sessions", 0),
         out: out.clone(),
     };
